@@ -65,6 +65,8 @@ pub fn start_determining_calling_process_in_thread() {
         .name("find_calling_process".into())
         .spawn(move || {
             let calling_process = determine_calling_process();
+            #[cfg(dandavison_delta_verif)]
+            crate::verif_hooks::sched::point("bg:computed");
 
             let (caller_mutex, determine_done) = &**CALLER;
 
@@ -75,6 +77,11 @@ pub fn start_determining_calling_process_in_thread() {
             }
 
             determine_done.notify_all();
+            #[cfg(dandavison_delta_verif)]
+            {
+                drop(caller);
+                crate::verif_hooks::sched::point("bg:done");
+            }
         })
         .unwrap();
 }
@@ -82,17 +89,29 @@ pub fn start_determining_calling_process_in_thread() {
 // delta starts the process, so it is known.
 pub fn set_calling_process(args: &[String]) {
     if let ProcessArgs::Args(result) = describe_calling_process(args) {
+        #[cfg(dandavison_delta_verif)]
+        crate::verif_hooks::sched::point("pub:before_lock");
         let (caller_mutex, determine_done) = &**CALLER;
 
         let mut caller = caller_mutex.lock().unwrap();
         *caller = result;
         CALLER_INFO_SOURCE.store(CALLER_KNOWN, DELTA_ATOMIC_ORDERING);
         determine_done.notify_all();
+        #[cfg(dandavison_delta_verif)]
+        {
+            drop(caller);
+            crate::verif_hooks::sched::point("pub:done");
+        }
     }
 }
 
 #[cfg(not(test))]
 pub fn calling_process() -> MutexGuard<'static, CallingProcess> {
+    #[cfg(dandavison_delta_verif)]
+    crate::verif_hooks::sched::point(&format!(
+        "query{}:before_lock",
+        crate::verif_hooks::sched::next_query_number()
+    ));
     let (caller_mutex, determine_done) = &**CALLER;
 
     determine_done
